@@ -3,7 +3,7 @@
 export GOFLAGS=-mod=mod GOPROXY=off GOSUMDB=off GOTOOLCHAIN=local
 set -e
 /verif/tools/stage.sh /var/tmp/dev
-cd /var/tmp/dev/m && go test -c -tags verif -o ../verifh.test ./verifh
+cd /var/tmp/dev/m && go test -c -tags verif -o ../verifh.test ${PKG:-./verifh}
 cd .. && rm -f fail.json out.json
 set +e
 VERIF_TIER=${VERIF_TIER:-quick} VERIF_OUT=/var/tmp/dev/out.json VERIF_FAILCASE=/var/tmp/dev/fail.json VERIF_JOURNAL=/var/tmp/dev/journal.json timeout ${TMO:-600} ./verifh.test -test.run "^$1\$" -rapid.checks=$2 -rapid.seed=${3:-7} -rapid.nofailfile -test.timeout 0 2>&1 | tail -${TAIL:-30}
@@ -14,6 +14,11 @@ try:
     d=json.load(open('/var/tmp/dev/out.json'))
     print('evals',d['evaluations'],'nontrivial',d['nontrivial'],'distinct',len(d['distinct_hashes']),'failures',d['failures'])
     print(' '.join(f"{k}={v}" for k,v in sorted(d['classes'].items())))
-    print('excluded',d['known_findings_excluded'], 'extra', d.get('extra'))
+    ex=d.get('extra') or {}
+    sc=ex.pop('slowest_case',None)
+    if isinstance(sc,dict) and 'edges' in sc:
+        ids=set(x for e in sc['edges'] for x in e)
+        sc={k:v for k,v in sc.items() if k not in('edges','sizes')}|{'n':len(ids),'m':len(sc['edges'])}
+    print('excluded',d['known_findings_excluded'], 'extra', ex, 'slowest', str(sc)[:600])
 except Exception as e: print('no stats', e)
 PY
